@@ -63,7 +63,7 @@ def time_env(tm_now):
         ref = t.f[0]
         now = tm_now
         st.trace = st.trace + (Event('SystemTime::elapsed', (ref,), None),)
-        return Enum(z3.If(now >= ref, z3.IntVal(0), z3.IntVal(1)), {'Ok': Struct([Struct([now - ref])]), 'Err': Struct([Opaque('SystemTimeError')])})
+        return Enum(z3.If(now >= ref, z3.IntVal(0), z3.IntVal(1)), {'Ok': Struct([Struct([now - ref])]), 'Err': Struct([Struct([Struct([ref - now])])])})
 
     def from_secs(ex, st, callee, args, fn):
         return Struct([args[0] * NS])
@@ -119,7 +119,7 @@ def time_env(tm_now):
         a = ex.deref(st, args[0]) if isinstance(args[0], Ref) else args[0]
         b = ex.deref(st, args[1]) if isinstance(args[1], Ref) else args[1]
         x, y = a.f[0], b.f[0]
-        return Enum(z3.If(x >= y, z3.IntVal(0), z3.IntVal(1)), {'Ok': Struct([Struct([x - y])]), 'Err': Struct([Opaque('SystemTimeError')])})
+        return Enum(z3.If(x >= y, z3.IntVal(0), z3.IntVal(1)), {'Ok': Struct([Struct([x - y])]), 'Err': Struct([Struct([Struct([y - x])])])})
 
     def dur_checked(ex, st, callee, args, fn):
         a = ex.deref(st, args[0]) if isinstance(args[0], Ref) else args[0]
@@ -398,7 +398,9 @@ def check_c10(tier, seed):
         if abs(iv) > 2 ** 31 or a > 2 ** 45 or a < -10 ** 12:
             return None
         for prof, p in (('dev', rp), ('release', rp2)):
-            nat = native_extract(p, 0.0, 0.0, 0.0, iv, leap, a)
+            # the other wire values as the solver chose them (the classification must not depend on them)
+            cc, dd, rr = [float(mval(m, x)) for x in (tm.c, tm.d, tm.r)]
+            nat = native_extract(p, cc, dd, rr, iv, leap, a)
             if 'status' not in nat:
                 continue
             want = c10_oracle(nat, leap)
@@ -416,7 +418,11 @@ def check_c10(tier, seed):
         pc = o.state.pcond()
         stt = o.value.f[1].disc()
         k1, k2 = z3.Int('hint_k1'), z3.Int('hint_k2')
+        k3 = z3.Int('hint_k3')
         hints = [[tm.iv * 16 == z3.ToReal(k1), tm.iv <= 4096, tm.iv >= -4096, (tm.now_ns - tm.ref_ns) == k2 * 1000000, k2 >= 0, k2 < 10 ** 9],
+                 # wire values exactly representable as chrony floats, reference time a whole number of milliseconds ahead of / behind the clock
+                 [tm.iv * 16 == z3.ToReal(k1), tm.iv <= 4096, tm.iv >= -4096, (tm.now_ns - tm.ref_ns) == k2 * 1000000, k2 > -10 ** 6, k2 < 10 ** 9,
+                  tm.c * 16 == z3.ToReal(k3), tm.d * 16 == z3.ToReal(z3.Int('hint_k4')), tm.r * 16 == z3.ToReal(z3.Int('hint_k5'))],
                  [tm.iv * 1024 == z3.ToReal(k1), tm.iv <= 4096, tm.iv >= -4096, (tm.now_ns - tm.ref_ns) < 10 ** 15, tm.now_ns >= tm.ref_ns]]
         pr.prove_cegar('path%d/status_is_the_documented_class' % i, pc, z3.Or(stt == exp, z3.And(near, z3.Or(stt == 1, stt == 2))), confirm, lambda m: [], hints=hints)
         pr.prove('path%d/status_code_valid' % i, pc, z3.And(stt >= 0, stt <= 2))
